@@ -91,6 +91,8 @@ func runC01(c HistCase, ev *Evid) (fs []Finding) {
 		switch {
 		case a.Points <= 2:
 			cls = append(cls, "ring<=2")
+		case a.Points > 2730:
+			cls = append(cls, "archive>2730-slots")
 		case a.Points > 341:
 			cls = append(cls, "multi-page-archive")
 		}
@@ -123,11 +125,17 @@ func runC01(c HistCase, ev *Evid) (fs []Finding) {
 
 func TestC01(t *testing.T) {
 	RunProperty(t, Property[HistCase]{
-		ID: "C01",
-		Rule: "rapid-generated histories (layout x clock x <=30 ops of single/batch writes to any archive incl. stale-lap writes, clock advances up to 3x max retention, sync, reopen); after every op every archive's full-retention window plus 3 generated windows and the raw dump are compared with the ring model and with each other. Non-trivial: a checked window held >=1 live value AND the history had a stale-lap write, a clock jump longer than the finest retention, a wrap-around read or a reopen. Distinct = hash of the whole case.",
+		ID:          "C01",
+		Rule:        "rapid-generated histories (layout x clock x <=30 ops of single/batch writes to any archive incl. stale-lap writes, clock advances up to 3x max retention, sync, reopen); after every op every archive's full-retention window plus 3 generated windows and the raw dump are compared with the ring model and with each other. Non-trivial: a checked window held >=1 live value AND the history had a stale-lap write, a clock jump longer than the finest retention, a wrap-around read or a reopen. Distinct = hash of the whole case.",
 		Assumptions: []string{"clock and timestamps inside zone Z7 (now > maxRetention + coarsest step, well below 2^32)", "archive ids passed to updates are in range (Z8)", "same-slot points with distinct timestamps are supplied in time order (Z2)"},
 		Gen: func(t *rapid.T) HistCase {
-			l := genLayout(t, defaultLayoutOpts())
+			o := defaultLayoutOpts()
+			o.HugePct = 3
+			l := genLayout(t, o)
+			if l.Archives[0].Points > 2730 {
+				// runs of thousands of slots: keep the history short (every step re-reads the whole archive)
+				return genHistory(t, l, histGenOpts{MaxOps: 6, FuturePct: 3, StaleNamed: true, Windows: 3, Reopen: true, BigBatches: true})
+			}
 			return genHistory(t, l, histGenOpts{MaxOps: 30, FuturePct: 3, StaleNamed: true, Windows: 3, Reopen: true, BigBatches: true})
 		},
 		Run:  runC01,
